@@ -29,6 +29,9 @@ func (fr *Frame) rounded(exact string, prefix string) string {
 }
 
 func isPow2Real(t string) bool {
+	if strings.HasPrefix(t, "(- ") && strings.HasSuffix(t, ")") {
+		return isPow2Real(t[3 : len(t)-1])
+	}
 	// literal like 1024.0
 	if !strings.HasSuffix(t, ".0") || strings.HasPrefix(t, "(") {
 		return false
